@@ -265,7 +265,7 @@ def run(ctx):
         for _ in range(100):
             v = tg.gen_value(c.desc, rng)
             enc = check_encode(res, c, v)
-            check_encode(res, c, tg.struct_as_dict(c.desc, v))
+            check_encode(res, c, tg.struct_as_dict(c.desc, v, rng))
             if enc is not None:
                 check_decode(res, c, enc + b"\x01")
 
@@ -367,7 +367,7 @@ def run(ctx):
                 continue
             enc = check_encode(res, c, v)
             if c.desc[0] == "struct":
-                dv = tg.struct_as_dict(c.desc, v)
+                dv = tg.struct_as_dict(c.desc, v, rng)
                 if dv is not None:
                     check_encode(res, c, dv)
             if enc is None:
